@@ -916,7 +916,7 @@ func bMark(intp *Interpreter) error {
 }
 
 func bMatrix(intp *Interpreter) error {
-	m := Array{Integer(1), Integer(0), Integer(0), Integer(1), Integer(0), Integer(0)}
+	m := Array{Real(1), Real(0), Real(0), Real(1), Real(0), Real(0)}
 	intp.Stack = append(intp.Stack, m)
 	return nil
 }
